@@ -413,9 +413,25 @@ def _run(ctx, T):
         if D not in sizes:
             sizes = sorted(set(sizes) | {max(0, D - 1), D, D + 1})
             pr = T.predict(dump, trace, bits, sizes)
-        _, recs = T.lim(path, [(MEM_BIG, s) for s in sizes], stdin=sin)
-        res["runs"] += len(recs)
-        got = {r["stack"]: r for r in recs}
+        # a broken tree produces a sanitizer report (slow: symbolised) at most sizes: run the sizes in
+        # ascending chunks and stop once a few unexpected reports are in hand; of the sizes where the
+        # model itself predicts a write outside (write-first variant) a handful is enough
+        oob_sizes = [s for s in sizes if pr["pred"].get(s, ("?",))[0] == "oob"]
+        skip_oob = set(oob_sizes[3:-3]) if len(oob_sizes) > 6 else set()
+        todo = [s for s in sizes if s not in skip_oob]
+        got = {}
+        unexpected = 0
+        for k in range(0, len(todo), 48):
+            _, recs = T.lim(path, [(MEM_BIG, s) for s in todo[k:k + 48]], stdin=sin)
+            res["runs"] += len(recs)
+            for r in recs:
+                got[r["stack"]] = r
+                if r["kind"] in ("asan", "ubsan", "signal", "assert") and pr["pred"].get(r["stack"], ("?",))[0] != "oob":
+                    unexpected += 1
+            if unexpected >= 4:
+                res["truncated_after"] = todo[min(len(todo), k + 48) - 1]
+                break
+        sizes = [s for s in todo if s in got]
         ref_out = ref["out"]
         completes = []
         fired = False
@@ -472,7 +488,7 @@ def _run(ctx, T):
                                   "C14: %s at stack size %d ends as %s (%s) instead of %s" % (
                                       pid, s, r["kind"], r["status"], "completing" if e[0] == "done" else "'stack too large'/exit 1"), rep))
         if completes:
-            if min(completes) != D and not any(ev[0] == "violation" for ev in res["events"]):
+            if min(completes) != D and not any(ev[0] == "violation" for ev in res["events"]) and "truncated_after" not in res:
                 res["events"].append(("broken", "demand", {"program": src, "model_demand": D, "smallest_completing": min(completes)}))
             res["nontrivial"] = fired
         # independent bisection of the smallest completing size for the big ones
